@@ -69,7 +69,8 @@ def r1_write(ctx, f):
     ts = f.rec["params"][1]["did"]
     tr = f.calls(r"::_time_rotation$")
     trp = npos(f, tr)
-    sr = cpos(f, r"::_size_rotation$")
+    from rules.c14 import size_sites
+    sr = size_sites(f)[1]
     writes = npos(f, [c for c in f.calls(r"::write_log$") if c.get("qualified") or "RotatingSink" not in c["callee"]])
     nb = branches_on_call(f, r"::is_null$")
     if not tr or not nb:
